@@ -286,6 +286,15 @@ func (r *Report) Finish() int {
 	if r.Prog != nil {
 		cov["packages"] = len(r.Prog.Pkgs)
 		cov["files"] = r.Prog.NFiles
+		if n := r.Prog.Norm; n != nil {
+			exp := n.Expanded
+			if len(exp) > 60 {
+				exp = append(append([]string{}, exp[:60]...), fmt.Sprintf("... and %d more", len(n.Expanded)-60))
+			}
+			cov["normalisation"] = map[string]any{"rounds": n.Rounds, "expansions": len(n.Expanded), "helpers_removed": len(n.Removed),
+				"fallback": n.Fallback, "expanded": exp,
+				"rule": "calls to unexported helpers that no rule names are expanded in memory where evaluation order is preserved; index loops become range loops; the rules are decided on this normal form (DESIGN.md section 0a)"}
+		}
 	}
 	if len(r.Info) > 0 {
 		cov["information"] = r.Info
